@@ -36,6 +36,10 @@ def gen_cases(ck):
             k = rng.choice([None, 1, widths[-1]] + [d for d in (2, 3) if widths[-1] % d == 0])
             cases.append(dict(in_dim=rng.choice([3, 5, 7]), widths=widths, W=rng.choice(Ws), k=k, flatten=flat,
                               opt=rng.randrange(4), tag=f"depth{depth}{'f' if flat else ''}"))
+    # the same layer OBJECT at several positions of the container (in_dim = out_dim): every application must be compiled
+    for pattern, flat in (([0, 0], False), ([0, 1, 0], False), ([0, 0, 0, 1], True), ([1, 0, 1, 0, 1], False)):
+        cases.append(dict(in_dim=5, widths=[5, 5], W=rng.choice(Ws), k=rng.choice([None, 1, 5]), flatten=flat, opt=rng.randrange(4),
+                          tag="shared", shared=pattern))
     n_rand = 12 if ck.tier == "quick" else 400
     for _ in range(n_rand):
         depth = rng.randrange(1, 6)
@@ -62,6 +66,13 @@ def run_case(ck, c, idx, coq_items):
     model = nets.make_dense(rng, c["in_dim"], c["widths"], gates=c.get("gates"), flatten=c["flatten"], k=c["k"],
                             tau=rng.choice([1.0, 2.0, 0.5]) if c["k"] else 1.0,
                             connections=rng.choice(["random", "unique"]))
+    if c.get("shared"):
+        mods = list(model)
+        head = [m for m in mods if isinstance(m, torch.nn.Flatten)]
+        dense = [m for m in mods if type(m).__name__ == "LogicDense"]
+        tail = [m for m in mods if type(m).__name__ == "GroupSum"]
+        model = torch.nn.Sequential(*head, *[dense[i] for i in c["shared"]], *tail)
+        c = dict(c, widths=[c["widths"][i] for i in c["shared"]])
     spec = nets.extract(model)
     W = c["W"]
     sig = {"W": W, "flatten": c["flatten"], "k": c["k"], "depth": len(c["widths"])}
